@@ -5,46 +5,26 @@ Property theorems over `Pywbem.Model.Assoc` (the model of pywbem_mock's Referenc
 Associators / AssociatorNames, instance and class level).  All theorems quantify over arbitrary
 repositories, sources and filters.
 -/
-import Proofs.Lemmas.Assoc
-import Proofs.Lemmas.AssocClass
+import Proofs.Lemmas.AssocSpec
 
 namespace C13
 open Pywbem.Proto Pywbem.Model.Assoc
 
-/-! ## specification vocabulary -/
+/-! ## specification vocabulary
 
-/-- "stored association instance `a` links `x` to `y` through two different reference properties that
-    satisfy Role (source end), ResultRole (far end), AssocClass (class of `a`, incl. subclasses) and
-    ResultClass (class named by the far end, incl. subclasses)" -/
-def Linked (cs : List Cls) (a : Inst) (x y : Path) (f : AFilter) : Prop :=
-  ∃ p ∈ a.props, ∃ q ∈ a.props, p ≠ q ∧ p.isRef = true ∧ q.isRef = true ∧
-    (∃ v, p.value = some v ∧ v.eqv x = true) ∧ q.value = some y ∧
-    classAdmits cs f.assocClass a.cls = true ∧ classAdmits cs f.resultClass y.cls = true ∧
-    roleAdmits f.role p.name = true ∧ roleAdmits f.resultRole q.name = true
+The definitions `Linked`, `Refers`, `optLe`, `FLe`, `swapRoles`, `StoreOk` (and, for the class level and
+the hierarchy, `Desc`, `RefClassesExist`, `FIeq`) live in `Proofs/Lemmas/AssocSpec.lean` so that helper
+lemmas can use them; they are definitions, not theorems:
 
-/-- "`a` references `x` through a reference property satisfying Role, and its class satisfies
-    ResultClass" (References / ReferenceNames) -/
-def Refers (cs : List Cls) (a : Inst) (x : Path) (rc role : Option Name) : Prop :=
-  ∃ p ∈ a.props, p.isRef = true ∧ (∃ v, p.value = some v ∧ v.eqv x = true) ∧
-    classAdmits cs rc a.cls = true ∧ roleAdmits role p.name = true
-
-/-- `f'` has at least the filters of `f`: every component of `f` is inactive (None or '') or equal -/
-def optLe (a b : Option Name) : Prop := truthy a = false ∨ a = b
-
-def FLe (f f' : AFilter) : Prop :=
-  optLe f.assocClass f'.assocClass ∧ optLe f.resultClass f'.resultClass ∧
-  optLe f.role f'.role ∧ optLe f.resultRole f'.resultRole
-
-/-- the filter for the reverse traversal: same AssocClass, roles swapped, no ResultClass -/
-def swapRoles (f : AFilter) : AFilter :=
-  { assocClass := f.assocClass, resultClass := none, role := f.resultRole, resultRole := f.role }
-
-/-- repository invariants of an instance store: it is a dict keyed by instance path (no two stored
-    instances have equal paths) and stored paths carry no host (`add_cimobjects` removes it,
-    `CreateInstance` builds paths without one) -/
-structure StoreOk (is : List Inst) : Prop where
-  nohost : ∀ a ∈ is, a.path.host = none
-  unique : ∀ a ∈ is, ∀ b ∈ is, a.path.eqv b.path = true → a = b
+* `Linked cs a x y f`  — stored instance `a` has two different reference properties `p ≠ q` with
+  `p.value ≡ x`, `q.value = y`, `AssocClass` admits `a.cls`, `ResultClass` admits `y.cls` (both incl.
+  subclasses: `classAdmits`), `Role` admits `p.name`, `ResultRole` admits `q.name` (case-insensitive);
+* `Refers cs a x rc role` — `a` has a reference property `p` with `p.value ≡ x`, Role admits `p.name`,
+  ResultClass admits `a.cls`;
+* `FLe f f'` — every component of `f` is inactive (None or '') or equal to that of `f'`;
+* `swapRoles f` — same AssocClass, Role and ResultRole exchanged, no ResultClass;
+* `StoreOk is` — the instance store is a dict keyed by path (no two stored paths are equal under
+  `CIMInstanceName.__eq__`) and stored paths have no host. -/
 
 /-! ## 1. characterisation of the traversal results -/
 
@@ -106,24 +86,6 @@ theorem C13_associators_via_references {S : NsStore} {x : Path} {f : AFilter} {l
   exact ⟨a, ha, List.mem_map.mpr ⟨a, mem_refInsts.mpr ⟨ha, hp⟩, rfl⟩, q, hq, (otherEnd_iff.mp hoe).2.1⟩
 
 /-! ## 2. adding a filter never adds results -/
-
-theorem classAdmits_mono {cs : List Cls} {a b : Option Name} (h : optLe a b) {c : Name}
-    (hb : classAdmits cs b c = true) : classAdmits cs a c = true := by
-  rcases h with h | h
-  · exact truthy_false_classAdmits h c
-  · rw [h]; exact hb
-
-theorem roleAdmits_mono {a b : Option Name} (h : optLe a b) {p : Name}
-    (hb : roleAdmits b p = true) : roleAdmits a p = true := by
-  rcases h with h | h
-  · exact truthy_false_roleAdmits h p
-  · rw [h]; exact hb
-
-theorem filterClassOk_mono {cs : List Cls} {a b : Option Name} (h : optLe a b)
-    (hb : filterClassOk cs b = true) : filterClassOk cs a = true := by
-  rcases h with h | h
-  · exact filterClassOk_of_not_truthy h
-  · rw [h]; exact hb
 
 /-- **filter_monotone**, AssociatorNames: if the operation succeeds with the filters `f'`, it succeeds
     with any weaker `f` and returns at least the same objects. -/
@@ -215,20 +177,6 @@ theorem C13_assoc_symmetric_same_namespace {S : NsStore} {x y : Path} {f : AFilt
     rw [hsw, h] at hl2; cases hl2; exact hy
 
 /-! ## 4. Names = paths of the full results (instance level) -/
-
-theorem findInst_self {is : List Inst} (hok : StoreOk is) {a : Inst} (ha : a ∈ is) :
-    findInst is a.path = some a := by
-  unfold findInst
-  cases hf : is.find? (fun i => i.path.eqv a.path) with
-  | none =>
-    rw [List.find?_eq_none] at hf
-    have := hf a ha
-    simp [eqv_refl] at this
-  | some b =>
-    have hb := List.mem_of_find?_eq_some hf
-    have hbe : b.path.eqv a.path = true := by
-      have := List.find?_some hf; exact this
-    rw [hok.unique b hb a ha hbe]
 
 /-- **names_are_paths_of_full**, References / ReferenceNames (instance level): for every server whose
     instance store is a well-formed dict, ReferenceNames returns exactly the paths of what References
@@ -375,5 +323,366 @@ theorem C13_names_errors_documented {sv : Server} {ns : Name} {x : Path} {f : AF
       cases hr : refInstsE S (srcPath ns x) rc role with
       | error e' => simp; intro h; subst h; exact Or.inr (refInstsE_error hr)
       | ok l0 => simp
+
+/-- the CIM status codes of the raise sites (regenerated from the source text on every run) are the
+    ones DSP0200 prescribes for these operations: INVALID_NAMESPACE (3), INVALID_PARAMETER (4) for an
+    unknown source / filter class and for a bad end point, INVALID_CLASS (5), NOT_FOUND (6),
+    ALREADY_EXISTS (11). -/
+theorem C13_status_codes_pinned :
+    errNamespace = .cimError 3 ∧ errParam = .cimError 4 ∧ errClass = .cimError 5 ∧
+    errNotFound = .cimError 6 ∧ errExists = .cimError 11 ∧
+    Pywbem.Generated.Assoc.sourceClassStatus = Pywbem.Generated.Assoc.validateClassStatus ∧
+    Pywbem.Generated.Assoc.endPointStatus = Pywbem.Generated.Assoc.validateClassStatus := by decide
+
+/-! ## 6. class level -/
+
+/-- **names_are_paths_of_full**, class level, References / ReferenceNames: the class names that
+    ReferenceNames returns are exactly the names in the (classpath, class) tuples of References, and
+    they fail alike — for every class store. -/
+theorem C13_class_names_are_names_of_full_references {sv : Server} {ns cn : Name} {rc role : Option Name} :
+    (match referencesC sv ns cn rc role with
+     | .ok l => Except.ok (l.map Prod.fst)
+     | .error e => Except.error e) = referenceNamesC sv ns cn rc role := by
+  unfold referencesC referenceNamesC withNs
+  cases hS : findNs sv.repo ns with
+  | none => rfl
+  | some S =>
+    simp only
+    unfold refClassNames
+    cases hr : refClasses S cn rc role with
+    | error e => rfl
+    | ok l0 =>
+      simp only
+      have hm : ∀ c ∈ l0, classTuple S.classes c.name = .ok (c.name, ((findClass S.classes c.name).getD default).name) := by
+        intro c hc
+        obtain ⟨c', hc', _, _⟩ := findClass_of_exists (classExists_of_mem (refClasses_mem hr hc))
+        simp [classTuple, hc']
+      rw [mapE_map_ok hm]
+      simp [List.map_map]
+
+/-- **names_are_paths_of_full**, class level, Associators / AssociatorNames: same statement, for class
+    stores in which every reference declaration names an existing class (the invariant CreateClass
+    maintains; without it Associators raises CIM_ERR_NOT_FOUND from `get_class`). -/
+theorem C13_class_names_are_names_of_full_associators {sv : Server} {ns cn : Name} {f : AFilter}
+    (hrefs : ∀ S ∈ sv.repo, RefClassesExist S.classes) :
+    (match associatorsC sv ns cn f with
+     | .ok l => Except.ok (l.map Prod.fst)
+     | .error e => Except.error e) = associatorNamesC sv ns cn f := by
+  unfold associatorsC associatorNamesC withNs
+  cases hS : findNs sv.repo ns with
+  | none => rfl
+  | some S =>
+    simp only
+    cases hn : assocClassNames S cn f with
+    | error e => rfl
+    | ok l0 =>
+      simp only
+      have hRE := hrefs S (List.mem_of_find?_eq_some hS)
+      obtain ⟨_, _, rl, hrl, hl0⟩ := assocClassNames_ok hn
+      have hm : ∀ n ∈ l0, classTuple S.classes n = .ok (n, ((findClass S.classes n).getD default).name) := by
+        intro n hnl
+        rw [hl0, List.mem_flatMap] at hnl
+        obtain ⟨c, hc, hnc⟩ := hnl
+        obtain ⟨p, hp, rfl, hpr, _, _⟩ := mem_assocClassEnds.mp hnc
+        obtain ⟨c', hc', _, _⟩ := findClass_of_exists (hRE c (refClasses_mem hrl hc) p hp hpr)
+        simp [classTuple, hc']
+      have := mapE_map_ok (h := fun n => n) hm
+      simp only [List.map_id'] at this
+      rw [this]
+      simp [List.map_map, Function.comp_def]
+
+/-- **filter_monotone**, class level: adding a filter to a class-level AssociatorNames /
+    ReferenceNames request never adds class names. -/
+theorem C13_filter_monotone_class {S : NsStore} {cn : Name} {f f' : AFilter} {l' : List Name}
+    (hle : FLe f f') (h' : assocClassNames S cn f' = .ok l') :
+    ∃ l, assocClassNames S cn f = .ok l ∧ ∀ n ∈ l', n ∈ l := by
+  obtain ⟨hac, hrc, hro, hrr⟩ := hle
+  obtain ⟨h1, h2, rl', hrl', hl'⟩ := assocClassNames_ok h'
+  obtain ⟨hce, _, sup, hsup, hrl'eq⟩ := refClasses_ok hrl'
+  have hrl := refClasses_eq_ok (S := S) (cn := cn) (rc := f.assocClass) (role := f.role) hce
+    (filterClassOk_mono hac h1) hsup
+  have hok := assocClassNames_eq_ok (filterClassOk_mono hac h1) (filterClassOk_mono hrc h2) hrl
+  refine ⟨_, hok, ?_⟩
+  intro n hn
+  rw [hl', List.mem_flatMap] at hn
+  obtain ⟨c, hc, hnc⟩ := hn
+  rw [List.mem_flatMap]
+  refine ⟨c, ?_, ?_⟩
+  · rw [hrl'eq] at hc
+    obtain ⟨hcS, hcond⟩ := List.mem_filter.mp hc
+    apply List.mem_filter.mpr
+    refine ⟨hcS, ?_⟩
+    simp only [Bool.and_eq_true, List.any_eq_true] at hcond ⊢
+    obtain ⟨hassoc, p, hp, hpr, hmatch⟩ := hcond
+    exact ⟨hassoc, p, hp, hpr, refPropMatches_mono (optLe_lists hac) (optLe_lcOpt hro) hmatch⟩
+  · rw [mem_assocClassEnds] at hnc ⊢
+    obtain ⟨p, hp, hpn, hpr, hmatch, hskip⟩ := hnc
+    exact ⟨p, hp, hpn, hpr, assocPropMatches_mono (optLe_lists hac) (optLe_lists hrc) (optLe_lcOpt hrr) hmatch, hskip⟩
+
+theorem C13_filter_monotone_class_references {S : NsStore} {cn : Name} {rc rc' role role' : Option Name}
+    {l' : List Name} (h1 : optLe rc rc') (h2 : optLe role role') (h' : refClassNames S cn rc' role' = .ok l') :
+    ∃ l, refClassNames S cn rc role = .ok l ∧ ∀ n ∈ l', n ∈ l := by
+  unfold refClassNames at h'
+  cases hr' : refClasses S cn rc' role' with
+  | error e => simp [hr'] at h'
+  | ok rl' =>
+    simp [hr'] at h'
+    obtain ⟨hce, hf, sup, hsup, hrl'eq⟩ := refClasses_ok hr'
+    have hrl := refClasses_eq_ok (S := S) (cn := cn) (rc := rc) (role := role) hce (filterClassOk_mono h1 hf) hsup
+    have hok : refClassNames S cn rc role = .ok ((S.classes.filter (fun c => c.isAssoc && c.props.any (fun p => p.isRef &&
+            refPropMatches p ((sup ++ [cn]).map lower) (lower c.name) (subclassesLc S.classes rc) (lcOpt role)))).map (·.name)) := by
+      simp only [refClassNames, hrl]
+    refine ⟨_, hok, ?_⟩
+    intro n hn
+    rw [← h', List.mem_map] at hn
+    obtain ⟨c, hc, rfl⟩ := hn
+    apply List.mem_map.mpr
+    refine ⟨c, ?_, rfl⟩
+    rw [hrl'eq] at hc
+    obtain ⟨hcS, hcond⟩ := List.mem_filter.mp hc
+    apply List.mem_filter.mpr
+    refine ⟨hcS, ?_⟩
+    simp only [Bool.and_eq_true, List.any_eq_true] at hcond ⊢
+    obtain ⟨hassoc, p, hp, hpr, hmatch⟩ := hcond
+    exact ⟨hassoc, p, hp, hpr, refPropMatches_mono (optLe_lists h1) (optLe_lcOpt h2) hmatch⟩
+
+/-! ## 7. names are case-insensitive -/
+
+/-- instance level: equal source paths (under `CIMInstanceName.__eq__`: class name and namespace
+    compared case-insensitively) and filter tuples that differ only in lexical case (or None vs '')
+    give identical results, for References and Associators alike. -/
+theorem C13_case_insensitive_instance {S : NsStore} {x x' : Path} {f f' : AFilter}
+    (hx : x.eqv x' = true) (hf : FIeq f f') :
+    assocInstNames S x f = assocInstNames S x' f' ∧
+    refInstNames S x f.resultClass f.role = refInstNames S x' f'.resultClass f'.role := by
+  obtain ⟨hac, hrc, hro, hrr⟩ := hf
+  constructor
+  · unfold assocInstNames
+    rw [filterClassOk_congr hac, filterClassOk_congr hrc, refInstsE_congr hx hac hro]
+    have : otherEnd S.classes x f.resultClass f.resultRole = otherEnd S.classes x' f'.resultClass f'.resultRole :=
+      funext (otherEnd_congr hx hrc hrr)
+    rw [this]
+  · unfold refInstNames
+    rw [refInstsE_congr hx hrc hro]
+
+/-- class level (after fix C13-F2): a recased source class name and recased filters give identical
+    results. -/
+theorem C13_case_insensitive_class {S : NsStore} {cn cn' : Name} {f f' : AFilter}
+    (hc : lower cn = lower cn') (hf : FIeq f f') :
+    assocClassNames S cn f = assocClassNames S cn' f' ∧
+    refClassNames S cn f.resultClass f.role = refClassNames S cn' f'.resultClass f'.role := by
+  obtain ⟨hac, hrc, hro, hrr⟩ := hf
+  constructor
+  · unfold assocClassNames
+    rw [filterClassOk_congr hac, filterClassOk_congr hrc, refClasses_congr hc hac hro,
+      subclassesLc_congr hac, subclassesLc_congr hrc]
+    have hrr' : lcOpt f.resultRole = lcOpt f'.resultRole := hrr
+    rw [hrr']
+    have : ∀ c, assocClassEnds c cn (subclassesLc S.classes f'.assocClass) (subclassesLc S.classes f'.resultClass)
+          (lcOpt f'.resultRole) = assocClassEnds c cn' (subclassesLc S.classes f'.assocClass)
+          (subclassesLc S.classes f'.resultClass) (lcOpt f'.resultRole) :=
+      fun c => assocClassEnds_congr hc _ _ _
+    simp only [this]
+  · unfold refClassNames
+    rw [refClasses_congr hc hrc hro]
+
+/-- operation level: the namespace name is case-insensitive too, and the `host`/`namespace`
+    attributes of the source path passed by the client are irrelevant. -/
+theorem C13_case_insensitive_operation {sv : Server} {ns ns' : Name} {x x' : Path} {f f' : AFilter}
+    (hns : lower ns = lower ns') (hcls : lower x.cls = lower x'.cls) (hkey : x.key = x'.key) (hf : FIeq f f') :
+    associatorNamesI sv ns x f = associatorNamesI sv ns' x' f' := by
+  have hx : (srcPath ns x).eqv (srcPath ns' x') = true := by
+    rw [eqv_iff]; simp [srcPath, eqOptName, ieq, hns, hcls, hkey]
+  unfold associatorNamesI withNs
+  have hfind : findNs sv.repo ns = findNs sv.repo ns' := by simp [findNs, ieq, hns]
+  rw [hfind]
+  cases findNs sv.repo ns' with
+  | none => rfl
+  | some S => simp only; rw [(C13_case_insensitive_instance (S := S) hx hf).1]
+
+/-! ## 8. the class filters are the subclass relation of the store -/
+
+/-- soundness: a class admitted by an active class filter `f` is `f` itself or a stored descendant of
+    `f` (walking superclass links; names compared case-insensitively) — for every class store. -/
+theorem C13_class_filter_sound {cs : List Cls} {fn c : Name} (hne : fn.isEmpty = false)
+    (h : classAdmits cs (some fn) c = true) :
+    lower c = lower fn ∨ ∃ d, Desc cs d fn ∧ lower c = lower d := by
+  simp only [classAdmits, truthy, hne, subclassesLc] at h
+  simp at h
+  rcases h with h | ⟨d, hd, hdc⟩
+  · exact Or.inl h
+  · exact Or.inr ⟨d, subNamesDeep_sound hd, hdc.symm⟩
+
+/-- completeness: `f` itself and every stored descendant reachable by at most `|classes| + 1`
+    superclass links is admitted (in a store without superclass cycles — C12 — every descendant is). -/
+theorem C13_class_filter_complete {cs : List Cls} {fn c : Name} (hne : fn.isEmpty = false)
+    (h : lower c = lower fn ∨ ∃ d, DescN cs (cs.length + 1) d fn ∧ lower c = lower d) :
+    classAdmits cs (some fn) c = true := by
+  simp only [classAdmits, truthy, hne, subclassesLc]
+  simp
+  rcases h with h | ⟨d, hd, hdc⟩
+  · exact Or.inl h
+  · exact Or.inr ⟨d, subNamesDeep_complete hd, hdc.symm⟩
+
+/-! ## 9. storing association instances: shadow instances in every namespace involved -/
+
+/-- **multi-namespace shadows**: when CreateInstance of an association instance succeeds, a copy with
+    the same class and properties is stored in the target namespace and in the namespace of every
+    non-NULL end — exactly the hypothesis `hshadow` of `C13_assoc_symmetric` for the new instance —
+    and the class stores are unchanged. -/
+theorem C13_create_writes_shadows {sv sv' : Server} {ns : Name} {a : Inst}
+    (h : createAssoc sv ns a = .ok sv') :
+    ∀ n ∈ otherNamespaces a ns ++ [ns], ∃ T, findNs sv'.repo n = some T ∧
+      ∃ a' ∈ T.insts, a'.cls = a.cls ∧ a'.props = a.props ∧ a'.path.key = a.path.key := by
+  unfold createAssoc at h
+  cases hS : findNs sv.repo ns with
+  | none => simp [hS] at h
+  | some S =>
+    simp only [hS] at h
+    split at h
+    · cases h
+    · split at h
+      · cases h
+      · split at h
+        · cases h
+        · split at h
+          · cases h
+          · rename_i hcls
+            split at h
+            · cases h
+            · cases h
+              intro n hn
+              have hall : ∀ k ∈ otherNamespaces a ns ++ [ns], ∃ T, findNs sv.repo k = some T := by
+                intro k hk
+                cases hk' : findNs sv.repo k with
+                | some T => exact ⟨T, rfl⟩
+                | none =>
+                  exfalso
+                  apply hcls
+                  simp only [List.any_eq_true]
+                  exact ⟨k, hk, by simp [hk']⟩
+              obtain ⟨T, hT, hmem⟩ := foldl_addInst_mem (a := a) _ sv.repo hall n hn
+              exact ⟨T, hT, rebase a n, hmem, rfl, rfl, rfl⟩
+
+/-! ## 10. non-vacuity and negation witnesses (closed instances, checked by evaluation) -/
+
+section Witness
+
+def nN : Name := ['N']
+def nL : Name := ['L']
+def nsA : Name := ['a']
+def nsB : Name := ['b']
+def hostH : Name := ['h']
+def clsN : Cls := { name := nN, super := none, isAssoc := false, props := [] }
+def clsM : Cls := { name := ['M'], super := some ['n'], isAssoc := false, props := [] }
+def clsL : Cls := { name := nL, super := none, isAssoc := true,
+                    props := [⟨['p'], true, nN⟩, ⟨['q'], true, nN⟩, ⟨['r'], true, ['M']⟩] }
+def clsL2 : Cls := { name := ['L', '2'], super := some ['l'], isAssoc := true, props := clsL.props }
+def pa (k : Nat) : Path := { cls := nN, ns := some nsA, host := none, key := k }
+def pb (k : Nat) : Path := { cls := nN, ns := some nsB, host := none, key := k }
+def node (p : Path) : Inst := { cls := p.cls, path := p, props := [] }
+/-- a ternary association instance of class `c`; `z = none` is a NULL end -/
+def link (c : Name) (ns : Name) (k : Nat) (x y : Path) (z : Option Path) : Inst :=
+  { cls := c, path := { cls := c, ns := some ns, host := none, key := k },
+    props := [⟨['p'], true, some x⟩, ⟨['Q'], true, some y⟩, ⟨['r'], true, z⟩] }
+def classes : List Cls := [clsN, clsM, clsL, clsL2]
+
+/-- a well-formed repository: 1 –L→ 2 (NULL third end), 1 –L2→ 3 with third end 4, self-association 5–5 -/
+def svGood : Server := { host := hostH, repo := [
+  { name := nsA, classes := classes,
+    insts := [node (pa 1), node (pa 2), node (pa 3), node (pa 4), node (pa 5),
+              link nL nsA 10 (pa 1) (pa 2) none, link ['L', '2'] nsA 11 (pa 1) (pa 3) (some (pa 4)),
+              link nL nsA 12 (pa 5) (pa 5) none] }] }
+
+/-- non-vacuity of the characterisation / NULL ends / self-association / subclass filter / recasing:
+    AssociatorNames(1) = {2, 3, 4}; with AssocClass 'l2' (recased subclass) = {3, 4}; with ResultRole 'q'
+    = {2, 3}; AssociatorNames(5) = {} -/
+example : associatorNamesI svGood nsA (pa 1) {} =
+    .ok [fillHost hostH (pa 2), fillHost hostH (pa 3), fillHost hostH (pa 4)] := by decide
+example : associatorNamesI svGood ['A'] (pa 1) { assocClass := some ['l', '2'] } =
+    .ok [fillHost hostH (pa 3), fillHost hostH (pa 4)] := by decide
+example : associatorNamesI svGood nsA (pa 1) { assocClass := some ['L'], resultRole := some ['q'] } =
+    .ok [fillHost hostH (pa 2), fillHost hostH (pa 3)] := by decide
+example : associatorNamesI svGood nsA (pa 5) {} = .ok [] := by decide
+example : (associatorsI svGood nsA (pa 1) {}).toOption.map (·.map (·.path)) = some [pa 2, pa 3, pa 4] := by decide
+example : StoreOk (svGood.repo.head!).insts := by
+  constructor
+  · decide
+  · decide
+/-- symmetry instance: 1 ∈ AssociatorNames(3; Role q, ResultRole p) -/
+example : associatorNamesI svGood nsA (pa 3) { role := some ['q'], resultRole := some ['P'] } =
+    .ok [fillHost hostH (pa 1)] := by decide
+
+/-- a dangling end: the association 1–2 is stored, instance 2 is not (deleted) -/
+def svDangling : Server := { host := hostH, repo := [
+  { name := nsA, classes := classes, insts := [node (pa 1), link nL nsA 10 (pa 1) (pa 2) none] }] }
+
+/-- **negation witness** for the converse of names_are_paths_of_full (finding C13-KF1):
+    AssociatorNames returns the dangling path, Associators fails with CIM_ERR_NOT_FOUND. -/
+theorem C13_names_are_paths_of_full_associators_fails_at_dangling :
+    ¬ (∀ (sv : Server) (ns : Name) (x : Path) (f : AFilter) (l : List Path),
+        associatorNamesI sv ns x f = .ok l → ∃ is, associatorsI sv ns x f = .ok is) := by
+  intro h
+  obtain ⟨is, his⟩ := h svDangling nsA (pa 1) {} [fillHost hostH (pa 2)] (by decide)
+  have : associatorsI svDangling nsA (pa 1) {} = .error errNotFound := by decide
+  rw [this] at his
+  cases his
+
+/-- ends stored without namespace / in an unknown namespace (only loadable with add_cimobjects) -/
+def svNoNs : Server := { host := hostH, repo := [
+  { name := nsA, classes := classes,
+    insts := [node (pa 1), node (pa 2), link nL nsA 10 (pa 1) { pa 2 with ns := none } none] }] }
+def svBadNs : Server := { host := hostH, repo := [
+  { name := nsA, classes := classes,
+    insts := [node (pa 1), link nL nsA 10 (pa 1) { pa 2 with ns := some ['z'] } none] }] }
+
+/-- **negation witness** for "only documented errors escape Associators" (findings C13-KF1, C13-KF2):
+    ValueError for an end without namespace, KeyError for an end in an unknown namespace. -/
+theorem C13_associators_errors_documented_fails_at :
+    ¬ (∀ (sv : Server) (ns : Name) (x : Path) (f : AFilter) (e : PyExc),
+        associatorsI sv ns x f = .error e → ∃ c, e = .cimError c) := by
+  intro h
+  obtain ⟨c, hc⟩ := h svBadNs nsA (pa 1) {} .keyError (by decide)
+  cases hc
+
+example : associatorsI svNoNs nsA (pa 1) {} = .error .valueError := by decide
+/-- the namespace-less end never matches its target (finding C13-KF2) -/
+example : associatorNamesI svNoNs nsA (pa 2) {} = .ok [] := by decide
+
+/-- a cross-namespace association stored in one namespace only (add_cimobjects) -/
+def svOneSided : Server := { host := hostH, repo := [
+  { name := nsA, classes := classes, insts := [node (pa 1), link nL nsA 10 (pa 1) (pb 2) none] },
+  { name := nsB, classes := classes, insts := [node (pb 2)] }] }
+
+/-- **negation witness**: without the shadow-instance hypothesis symmetry fails across namespaces. -/
+theorem C13_assoc_symmetric_fails_without_shadow :
+    ¬ (∀ (S T : NsStore) (x y : Path) (f : AFilter) (l : List Path),
+        classExists T.classes y.cls = true → filterClassOk T.classes f.assocClass = true →
+        assocInstNames S x f = .ok l → (∃ y' ∈ l, y'.eqv y = true) →
+        ∃ l', assocInstNames T y (swapRoles f) = .ok l' ∧ ∃ x' ∈ l', x'.eqv x = true) := by
+  intro h
+  obtain ⟨l', hl', x', hx', _⟩ := h (svOneSided.repo[0]!) (svOneSided.repo[1]!) (pa 1) (pb 2) {} [pb 2]
+    (by decide) (by decide) (by decide) ⟨pb 2, by decide, by decide⟩
+  have : assocInstNames (svOneSided.repo[1]!) (pb 2) (swapRoles {}) = .ok [] := by decide
+  rw [this] at hl'
+  cases hl'
+  cases hx'
+
+/-- CreateInstance of the same cross-namespace association writes both copies, and symmetry holds -/
+example : (createAssoc { svOneSided with repo := [{ name := nsA, classes := classes, insts := [node (pa 1)] },
+              { name := nsB, classes := classes, insts := [node (pb 2)] }] } nsA
+            (link nL nsA 10 (pa 1) (pb 2) none)).toOption.map
+          (fun sv => (associatorNamesI sv nsA (pa 1) {}, associatorNamesI sv nsB (pb 2) {})) =
+    some (.ok [fillHost hostH (pb 2)], .ok [fillHost hostH (pa 1)]) := by decide
+
+/-- class level: Associators('N') = the reference classes of L and L2 that are not the single-use
+    source end; recasing the source gives the same (fix C13-F2) -/
+example : associatorNamesC svGood nsA nN {} = associatorNamesC svGood nsA ['n'] {} := by decide
+example : associatorNamesC svGood nsA ['m'] {} = .ok [nN, nN, nN, nN] := by decide
+example : RefClassesExist classes := by unfold RefClassesExist; decide
+example : (associatorsC svGood nsA nN {}).toOption.map (·.map Prod.fst) = (associatorNamesC svGood nsA nN {}).toOption := by
+  decide
+
+end Witness
 
 end C13
